@@ -92,6 +92,7 @@ NetworkAddress = Any
 
 # frame sizes
 ACK_FRAME_CAPACITY = 64  # FIXME: this is arbitrary!
+MAX_ACK_RANGES = 32
 APPLICATION_CLOSE_FRAME_CAPACITY = 1 + 2 * UINT_VAR_MAX_SIZE  # + reason length
 CONNECTION_LIMIT_FRAME_CAPACITY = 1 + UINT_VAR_MAX_SIZE
 HANDSHAKE_DONE_FRAME_CAPACITY = 1
@@ -3257,9 +3258,14 @@ class QuicConnection:
         ack_delay = now - space.largest_received_time
         ack_delay_encoded = int(ack_delay * 1000000) >> self._local_ack_delay_exponent
 
+        # Limit the number of ACK ranges we report by forgetting the oldest ones
+        # (RFC 9000 section 13.2.3) and reserve enough room for the ones we keep.
+        while len(space.ack_queue) > MAX_ACK_RANGES:
+            space.ack_queue.shift()
         buf = builder.start_frame(
             QuicFrameType.ACK,
-            capacity=ACK_FRAME_CAPACITY,
+            capacity=ACK_FRAME_CAPACITY
+            + 2 * UINT_VAR_MAX_SIZE * (len(space.ack_queue) - 1),
             handler=self._on_ack_delivery,
             handler_args=(space, space.largest_received_packet),
         )
